@@ -425,7 +425,35 @@ def apply(facts, deny=None):
         for crate, d in out.items():
             for fd in d["fns"]:
                 inlined_somewhere |= set(fd.get("inlined_from") or [])
+        dropped = set()
         for crate, d in out.items():
-            d["fns"] = [fd for fd in d["fns"] if not (fd["path"] in inlined_somewhere and fd["path"] not in still_called
-                                                      and inl.eligible(crate, inl.by_path[fd["path"]][1], crate))]
+            keep = []
+            for fd in d["fns"]:
+                if fd["path"] in inlined_somewhere and fd["path"] not in still_called and inl.eligible(crate, inl.by_path[fd["path"]][1], crate):
+                    dropped.add(fd["path"])
+                else:
+                    keep.append(fd)
+            d["fns"] = keep
+        if dropped:
+            # the closures of a folded helper now belong to the function it was folded into (first host in path order; a helper folded
+            # into several callers has one closure body shared by all of them)
+            host_of = {}
+            for crate, d in out.items():
+                for fd in sorted(d["fns"], key=lambda x: (x.get("kind") == "Closure", x["path"])):
+                    for h in fd.get("inlined_from") or []:
+                        if h in dropped and h not in host_of:
+                            host_of[h] = fd
+            for crate, d in out.items():
+                fns = []
+                for fd in d["fns"]:
+                    if fd.get("kind") == "Closure" and (fd.get("root") in host_of or fd.get("parent") in host_of):
+                        fd = dict(fd)
+                        for _ in range(4):
+                            if fd.get("parent") in host_of:
+                                fd["parent"] = host_of[fd["parent"]]["path"]
+                            if fd.get("root") in host_of:
+                                h = host_of[fd["root"]]
+                                fd["root"] = h.get("root") if h.get("kind") == "Closure" and h.get("root") else h["path"]
+                    fns.append(fd)
+                d["fns"] = fns
     return out, inl.count
